@@ -29,6 +29,9 @@ type Case struct {
 	Args         []string          `json:"args,omitempty"`          // op specific
 	Tag          string            `json:"tag,omitempty"`           // generator class (for the distribution)
 	Exp          []ExpLex          `json:"exp,omitempty"`           // lexemes a rendered document is known to consist of
+	Group        string            `json:"group,omitempty"`         // metamorphic group: variants are compared with the group's base
+	Role         string            `json:"role,omitempty"`          // "base" or a description of the variant
+	Want         string            `json:"want,omitempty"`          // expectation of a monitor
 	// filled by the run
 	Oracle  map[string]string `json:"oracle,omitempty"` // answers of schema-core shipped to the model
 	GoOut   string            `json:"go_out,omitempty"`
@@ -386,6 +389,7 @@ type Report struct {
 	Rule               string         `json:"rule"`
 	ByTag              map[string]int `json:"by_tag"`
 	OutcomeClasses     map[string]int `json:"outcome_classes"`
+	ErrorClasses       map[string]int `json:"error_classes,omitempty"`
 	SizeHistogram      map[string]int `json:"size_histogram"`
 	Disagreements      []Disagreement `json:"disagreements"`
 	Monitor            []Disagreement `json:"monitor_failures"` // property monitor failures on the implementation's own output
